@@ -28,53 +28,74 @@ def c01(cx):
     rules_struct.r_pair_counters(cx, cx.facts("dev-none-stable"))
 
 
-@prop("C04", "LEA rules R-NEWLINE (every consumed character that may be a line feed is followed by add_line() before "
-             "further consumption / token start / end of the step) and R-ADVANCE-EVIDENCE (advance_by counts are "
-             "dominated by look-ahead evidence on every path). Decides the line-table half; column arithmetic via C05.")
+@prop("C04", 'LEA rules R-NEWLINE (every consumed character that may be a line feed is followed by add_line() '
+             'before further consumption / token start / end of the step), R-ADVANCE-EVIDENCE (advance_by counts '
+             "are dominated by look-ahead evidence on every path), R-PRECONSUME (a dispatcher's pre-consumed first "
+             'character is one the scanner loop would consume with the same effects, add_line included); '
+             'structural R-RESTORE (rollback truncates the line table). Decides the line-table half; column '
+             'arithmetic via C05.')
 def c04(cx):
-    lea_glue.apply(cx, ["R-NEWLINE", "R-ADVANCE-EVIDENCE"])
+    lea_glue.apply(cx, ["R-NEWLINE", "R-ADVANCE-EVIDENCE", "R-PRECONSUME"])
     rules_struct.r_restore(cx, cx.facts("dev-none-stable"))
 
 
-@prop("C06", "LEA rules R-CHANNEL (constant channel/type sets of every emission satisfy the channel policy of the "
-             "property; ExpectSymbol pairs checked at their constructors) and R-ADVANCE-EVIDENCE.")
+@prop("C06", 'LEA rules over every emission of every lex_token path: R-CHANNEL (channel/type sets satisfy the '
+             'channel policy; ExpectSymbol pairs checked at their constructors), R-NONEMPTY (only the designated '
+             'recovery/virtual types can be zero-width), R-SPELL (symbol tokens consume exactly one admissible '
+             'spelling), R-DELIM-SHAPE (comments carry opener and closer), R-MARK-WS (hidden WS emitted at a mark '
+             'covers only whitespace), R-ORPHAN (every consumed character belongs to a token of its step, so none '
+             'silently joins the previous token), R-ADVANCE-EVIDENCE. Decides these per-type shape clauses, not '
+             "the keyword tables' content.")
 def c06(cx):
-    lea_glue.apply(cx, ["R-CHANNEL", "R-ADVANCE-EVIDENCE", "R-MARK-WS", "R-DELIM-SHAPE", "R-NONEMPTY", "R-SPELL"])
+    lea_glue.apply(cx, ["R-CHANNEL", "R-ADVANCE-EVIDENCE", "R-MARK-WS", "R-DELIM-SHAPE", "R-NONEMPTY", "R-SPELL", "R-ORPHAN"])
 
 
-@prop("C09", "LEA: R-CKPT (checkpoint typestate on every path and through every live-checkpoint region: no "
-             "checkpoint() while one is live, owners always resolve it, owners are entered with one) so that no "
-             "stale rollback target survives; R-SPEC-PURITY and R-ERR-PAIR are listed in the evidence when built.")
+@prop("C09", 'LEA: R-CKPT (checkpoint typestate on every path and through every live-checkpoint region: no '
+             'checkpoint() while one is live, owners always resolve it, owners are entered with one), '
+             'R-SPEC-PURITY (no error is recorded while a checkpoint is live: the error list is not rolled back), '
+             "R-ERR-PAIR (each 'missing expected' error is immediately followed by its zero-width token at the "
+             'same offset, and conversely), R-ERR-ORDER / R-OFFSET-PROVENANCE (error offsets are cursor snapshots, '
+             'non-decreasing along a step).')
 def c09(cx):
     lea_glue.apply(cx, ["R-CKPT", "R-ERR-PAIR", "R-SPEC-PURITY", "R-ERR-ORDER", "R-OFFSET-PROVENANCE"])
 
 
-@prop("C07", "LEA rule R-SECTION (the first literal section of a token is anchored at the token start or right after "
-             "its opening quote on every call path; a section end computed as `current offset - k` directly follows the "
-             "consumption of the closing quote) plus the structural rules R-HEX-SINK / R-RESTORE when built. Decides "
-             "where sections begin and end, not the unquoted content.")
+@prop("C07", 'LEA rules R-SECTION (the first literal section of a token is anchored at the token start or right '
+             'after its opening quote on every call path; a section end computed as `current offset - k` directly '
+             "follows the consumption of the closing quote) and R-PRECONSUME (a dispatcher's pre-consumed first "
+             'character is not one the scanner would treat as an escape / section boundary); structural R-HEX-SINK '
+             'and R-RESTORE. Decides where sections begin and end, not the unquoted content.')
 def c07(cx):
-    lea_glue.apply(cx, ["R-SECTION"])
+    lea_glue.apply(cx, ["R-SECTION", "R-PRECONSUME"])
     fx = cx.facts("dev-none-stable")
     rules_struct.r_hex_sink(cx, fx)
     rules_struct.r_restore(cx, fx)
 
 
-@prop("C10", "LEA rules R-RETYPE-GUARD (a token is retyped through the same look-behind accessor that guarded it) and "
-             "R-EXPECT-TABLE clauses LPAREN-FIRST / PARENS-BALANCED for every argument-taking built-in keyword.")
+@prop("C10", 'LEA rules R-RETYPE-GUARD (a token is retyped through the same look-behind accessor that guarded it), '
+             'R-EXPECT-TABLE clauses LPAREN-FIRST / PARENS-BALANCED for every argument-taking built-in keyword, '
+             'R-FINALIZE-ONCE (finalize_lexing closes every pending mode exactly once, re-pushing what a delegate '
+             'pops), R-GROUP (datalines start, data and terminator are emitted together on every accepting path; a '
+             'MacroLabel retype is followed by its one-character hidden colon).')
 def c10(cx):
-    lea_glue.apply(cx, ["R-RETYPE-GUARD", "R-EXPECT-TABLE", "R-FINALIZE-ONCE"])
+    lea_glue.apply(cx, ["R-RETYPE-GUARD", "R-EXPECT-TABLE", "R-FINALIZE-ONCE", "R-GROUP"])
 
 
-@prop("C13", "LEA rule R-NESTING-FLUSH: every exit of a parenthesis-counting argument scanner pops the mode, stores the "
-             "local count into it, or provably has count 0.")
+@prop("C13", 'LEA rules R-NESTING-FLUSH (every exit of a parenthesis-counting argument scanner pops the mode, '
+             'stores the local count into it, or provably has count 0), R-DEPTH-GUARD (an argument / expression '
+             "mode is closed by ',' or ')' only under a depth-zero test) and R-PRECONSUME (dispatcher and scanner "
+             'agree on %-quoted characters: what a dispatcher consumes before handing over is what the scanner '
+             'would consume without touching its nesting count). Decides the masking mechanics, not operator '
+             'classification.')
 def c13(cx):
-    lea_glue.apply(cx, ["R-NESTING-FLUSH", "R-DEPTH-GUARD"])
+    lea_glue.apply(cx, ["R-NESTING-FLUSH", "R-DEPTH-GUARD", "R-PRECONSUME"])
 
 
-@prop("C14", "LEA rule R-EXPECT-TABLE: for every keyword handled by dispatch_macro_call_or_stat the pre-loaded mode "
-             "sequence satisfies the delimiter clauses of the property ('(' first, ',' after the first %scan/%substr "
-             "argument, '=' after the %let name, '/' after the %copy name, ';' last) and R-ERR-PAIR when built.")
+@prop("C14", 'LEA rules R-EXPECT-TABLE (for every keyword handled by dispatch_macro_call_or_stat the pre-loaded '
+             "mode sequence satisfies the delimiter clauses of the property: '(' first, ',' after the first "
+             "%scan/%substr argument, '=' after the %let name, '/' after the %copy name, ';' last) and R-ERR-PAIR "
+             "(each 'missing expected' error sits at the recovery token's offset, incl. finalize_lexing at end of "
+             'input).')
 def c14(cx):
     lea_glue.apply(cx, ["R-EXPECT-TABLE", "R-ERR-PAIR"])
 
@@ -88,10 +109,12 @@ def c03(cx):
     rules_struct.r_units(cx, ["dev-none-stable", "dev-msep-stable"])
 
 
-@prop("C02", "structural rules R-RESTORE (rollback restores cursor / stack length and truncates tokens, lines and the "
-             "literal buffer to exactly what checkpoint captured, on every path), R-EOF (EOF only from finalize_lexing / "
-             "into_detached, lex() always ends through them), R-BOM-ORDER. Offsets-provenance rules are listed in "
-             "the evidence when built.")
+@prop("C02", 'structural rules R-RESTORE (rollback restores cursor / stack length and truncates tokens, lines and '
+             'the literal buffer to exactly what checkpoint captured, on every path), R-EOF (EOF only from '
+             'finalize_lexing / into_detached, lex() always ends through them), R-BOM-ORDER, R-INSERT-PROVENANCE, '
+             'R-CFGDIFF-MACROSEP; LEA rules R-OFFSET-PROVENANCE (byte offset, char offset and line of every '
+             'emitted token are snapshots of one and the same cursor position) and R-EMIT-ORDER (token starts are '
+             'non-decreasing along a step).')
 def c02(cx):
     fx = cx.facts("dev-none-stable")
     rules_struct.r_restore(cx, fx)
@@ -101,13 +124,16 @@ def c02(cx):
     lea_glue.apply(cx, ["R-OFFSET-PROVENANCE", "R-EMIT-ORDER"])
 
 
-@prop("C12", "R-PAIR-COUNTERS (macro nesting level and pending-statement frames are opened only by %macro/%do and "
-             "closed only by %mend/%end, one operation each) and the residual-state part of R-CKPT (owners always "
-             "resolve their checkpoint).")
+@prop("C12", 'R-PAIR-COUNTERS (macro nesting level and pending-statement frames are opened only by %macro/%do and '
+             'closed only by %mend/%end, one operation each), the residual-state part of R-CKPT (owners always '
+             'resolve their checkpoint), R-PENDING, R-EXPECT-TABLE, and R-WS-ORDER: every mode that gives up at '
+             'zero consumption on a possibly-blank character is entered behind the whitespace/comment skipper or a '
+             'mode that leaves a non-blank (mode push order; audited table of modes for which a blank is a '
+             'terminator). Decides these mode-choreography clauses, not the absence of errors for all programs.')
 def c12(cx):
     fx = cx.facts("dev-none-stable")
     rules_struct.r_pair_counters(cx, fx)
-    lea_glue.apply(cx, ["R-CKPT", "R-PENDING"])
+    lea_glue.apply(cx, ["R-CKPT", "R-PENDING", "R-WS-ORDER", "R-EXPECT-TABLE"])
 
 
 @prop("C17", "R-BOM-ORDER: the BOM constant is only looked at in Lexer::new, where it is eaten before the first "
@@ -127,17 +153,20 @@ def c05(cx):
     rules_struct.r_units(cx, ["dev-none-stable"])
 
 
-@prop("C11", "LEA rules on macro-free open-code paths: R-PENDING (the pending-statement flag follows the last DEFAULT "
-             "token: false after ';', true otherwise), R-DELIM-SHAPE (comments consume disjoint opener and closer), "
-             "R-NONEMPTY. Decides the statement-context flag and token-shape clauses, not equivalence with a reference lexer.")
+@prop("C11", 'LEA rules on macro-free open-code paths: R-PENDING (the pending-statement flag follows the last '
+             "DEFAULT token: false after ';', true otherwise), R-DATALINES-START (datalines is recognised exactly "
+             "when the previous DEFAULT-channel token is absent or ';'), R-DELIM-SHAPE (comments consume disjoint "
+             'opener and closer), R-SPELL, R-NONEMPTY. Decides the statement-context flag and token-shape clauses, '
+             'not equivalence with a reference lexer.')
 def c11(cx):
     lea_glue.apply(cx, ["R-PENDING", "R-DELIM-SHAPE", "R-NONEMPTY", "R-SPELL", "R-DATALINES-START"])
 
 
-@prop("C15", "R-STATE-INVENTORY (no state outside the lexer object), R-NO-ABSOLUTE (no control flow on history lengths), "
-             "R-LOOKBEHIND (statement-start look-behind treats 'no previous token' like ';'), R-CKPT (no checkpoint "
-             "survives a closed boundary), R-PAIR-COUNTERS. Decides that no channel other than the declared "
-             "configuration carries information across a closed boundary; not equality of results for all (A, B).")
+@prop("C15", 'R-STATE-INVENTORY (no state outside the lexer object), R-NO-ABSOLUTE (no control flow on history '
+             "lengths), R-LOOKBEHIND + R-DATALINES-START (statement-start look-behind treats 'no previous token' "
+             "like ';' and ignores hidden tokens), R-CKPT (no checkpoint survives a closed boundary), "
+             'R-PAIR-COUNTERS. Decides that no channel other than the declared configuration carries information '
+             'across a closed boundary; not equality of results for all (A, B).')
 def c15(cx):
     rules_cfg.r_state_inventory(cx)
     rules_cfg.r_no_absolute(cx)
@@ -146,10 +175,10 @@ def c15(cx):
     lea_glue.apply(cx, ["R-CKPT", "R-DATALINES-START"])
 
 
-@prop("C18", "R-CFGDIFF-MACROSEP: structural diff of the feature-off and feature-on HIR: feature-only code may only read "
-             "and emit/insert MacroSep; R-MACROSEP-GUARD: every MacroSep emission is guarded by needs_macro_sep, goes "
-             "to DEFAULT without payload, the predicate keeps its exclusions/targets; R-OFFSET-PROVENANCE for the "
-             "inserted token.")
+@prop("C18", 'R-CFGDIFF-MACROSEP: structural diff of the feature-off and feature-on HIR: feature-only code may '
+             'only read and emit/insert MacroSep; R-MACROSEP-GUARD: every MacroSep emission is guarded by '
+             'needs_macro_sep, goes to DEFAULT without payload, the predicate keeps its exclusions/targets; '
+             'R-INSERT-PROVENANCE for the inserted token; R-LOOKBEHIND.')
 def c18(cx):
     rules_cfg.r_cfgdiff_macrosep(cx)
     rules_cfg.r_lookbehind(cx)
